@@ -329,6 +329,10 @@ pub struct SimPair {
     pub acks_handled: [u32; 2],
     pub acks_extended: u32,
     ack_count: [u32; 2],
+    /// stash_until_us[link]: every frame put on that link before this time is also kept as a network duplicate
+    /// that arrives only when `release_stash` is called (a copy delayed for a very long time)
+    pub stash_until_us: [u64; 2],
+    stash: [Vec<(u32, Box<[u8]>)>; 2],
 }
 
 impl SimPair {
@@ -361,6 +365,8 @@ impl SimPair {
             ext_acks: [Vec::new(), Vec::new()],
             acks_handled: [0, 0],
             acks_extended: 0,
+            stash_until_us: [0, 0],
+            stash: [Vec::new(), Vec::new()],
             ack_count: [0, 0],
         }
     }
@@ -377,6 +383,19 @@ impl SimPair {
     pub fn advance(&mut self, dt_us: u64) {
         self.now_us += dt_us;
         uflow::verif::time::set_ns(self.now_us.saturating_mul(1000));
+    }
+
+    /// Delivers the long-delayed duplicates kept for `link` now, in the order in which the originals were sent.
+    pub fn release_stash(&mut self, link: usize) -> usize {
+        let to = 1 - link;
+        let list = std::mem::take(&mut self.stash[link]);
+        let n = list.len();
+        for (wire_idx, bytes) in list {
+            self.seq += 1;
+            let seq = self.seq;
+            self.in_flight[to].push(InFlight { arrive_us: self.now_us, seq, wire_idx, bytes, corrupted: false });
+        }
+        n
     }
 
     pub fn in_flight_count(&self) -> usize {
@@ -403,6 +422,9 @@ impl SimPair {
             };
             self.trace.max_frame_len = self.trace.max_frame_len.max(bytes.len());
             let wire_idx = self.trace.wire[from].len() as u32;
+            if self.now_us < self.stash_until_us[from] {
+                self.stash[from].push((wire_idx, bytes.clone()));
+            }
             let base = self.now_us + self.latency_us[from] as u64;
             let mut push = |sim: &mut SimPair, arrive_us: u64, data: Box<[u8]>, corrupted: bool| {
                 if arrive_us < sim.last_arrival_us[to] {
